@@ -652,7 +652,7 @@ def run(ctx):
     ctx.rule("MOD-ROUNDTRIP", "KeyMod Debug names vs Key::from_str modifier arms are inverse; flags single-bit, disjoint", floor=16)
     ctx.rule("SEPARATORS", "'+' / ' ' agree between Debug/Display and from_str, appear in no name; key and modifier names disjoint", floor=8)
     ctx.rule("SERDE-CHAIN", "KeyChord Serialize -> collect_str(Display) ; Deserialize -> FromStr ; Display impls delegate to the Debug tables", floor=7)
-    ctx.rule("PANIC-SITE", "every unwrap/expect/panic!/index site in the parsers is guarded by an accepted idiom (I1 chars().count()==1 / non-empty, I2 ASCII starts_with)", floor=4)
+    ctx.rule("PANIC-SITE", "every unwrap/expect/panic!/index site in the parsers is guarded by an accepted idiom (I1 chars().count()==1 / non-empty, I2 ASCII starts_with)", floor=3)  # 4 on the pinned tree; 3 once the expect() finding is fixed
 
     # =========================== KeyName tables ===================================================
     ptab = dtab = None
